@@ -305,6 +305,57 @@ func scByzFrames(r *Run) {
 			time.Sleep(time.Duration(r.Intn("byz", 30)) * time.Millisecond)
 		}
 	}
+	// identifier squatting: the peer opens tubes under every identifier of the honest side's own parity
+	// (of one kind or both); the honest application then opens a tube of its own.  The call must come back
+	// (with a tube or with an error), and the muxer must go on serving.
+	if r.Intn("squat", 5) == 0 {
+		hp := byte(0)
+		if honest == mp.B {
+			hp = 1
+		}
+		kinds := r.Intn("squat", 3) // 0 reliable, 1 unreliable, 2 both
+		left := r.Intn("squat", 3)  // identifiers left free: usually none
+		if r.Intn("squat", 2) == 0 {
+			left = 0
+		}
+		for k := 0; k < 2; k++ {
+			if (k == 0 && kinds == 1) || (k == 1 && kinds == 0) {
+				continue
+			}
+			fl := byte(0x01)
+			if k == 0 {
+				fl |= 1 << 2
+			}
+			for id := 0; id < 128-left; id++ {
+				n.Inject(byzAddr, honestAddr, []byte{hp + byte(2*id), fl, 0, 0, byte(common.PFTube), 0, 0, 0, 0, 0, 0, 0}, 0, "squat-req")
+				if id%32 == 31 {
+					time.Sleep(5 * time.Millisecond)
+				}
+			}
+		}
+		r.CountFault("identifier-space-squatted", 1)
+		time.Sleep(time.Duration(50+r.Intn("squat", 500)) * time.Millisecond)
+		for k := 0; k < 2; k++ {
+			k := k
+			r.Obligation(1)
+			var err error
+			if !WithTimeout(r, 3*time.Minute, func() {
+				if k == 0 {
+					_, err = honest.CreateReliableTube(common.ExecTube)
+				} else {
+					_, err = honest.CreateUnreliableTube(common.ExecTube)
+				}
+			}) {
+				r.Violate("C11/create-does-not-return", "after the peer opened tubes under %d of the 128 identifiers of the local parity, Create%sTube did not return within 3 simulated minutes; goroutines:\n  %s",
+					128-left, []string{"Reliable", "Unreliable"}[k], BlockedSummary())
+				break
+			}
+			if err != nil {
+				r.Probe("create-refused-after-squatting")
+			}
+			r.Logf("squatted %d identifiers (kinds %d); own Create%sTube -> %v", 128-left, kinds, []string{"Reliable", "Unreliable"}[k], err)
+		}
+	}
 	// oracle 1: the unrelated tube's transfer completes
 	for i := 0; i < 2; i++ {
 		select {
@@ -321,7 +372,9 @@ func scByzFrames(r *Run) {
 	}
 	// oracle 2: the honest muxer can still be stopped
 	r.Obligation(1)
+	r.Logf("stopping the honest muxer")
 	stopped := WithTimeout(r, 5*time.Minute, func() { honest.Stop() })
+	r.Logf("honest muxer stopped: %v", stopped)
 	if !stopped {
 		r.Violate("C11/stop-does-not-return", "Muxer.Stop did not return within 5 simulated minutes after Byzantine frames; goroutines:\n  %s", BlockedSummary())
 	}
